@@ -27,9 +27,27 @@ Definition use_row (i : nat) (stamp pt : list Z) (c pos : Z) : row :=
 Definition emit (st : mstate) (e : mev) (k : tkey) : list row :=
   match e with
   | EReg r =>
-    match index_of r (m_lo st) with
-    | Some _ => []
-    | None => if key_rank k =? r then [header (m_lo st ++ [r]) (length (m_lo st))] else []
+    match index_of r (m_lo st), lookup_rm r (m_rm st) with
+    | None, None => if key_rank k =? r then [header (m_lo st ++ [r]) (length (m_lo st))] else []
+    | _, _ => []
+    end
+  | EStartM src r =>
+    match index_of r (m_lo st), index_of src (m_lo st), lookup_rm src (m_rm st) with
+    | Some i, None, None => if key_rank k =? src then [header (m_lo st) i] else []
+    | _, _, _ => []
+    end
+  | EUseM r c pos kind label =>
+    match aidx st r with
+    | None => []
+    | Some i => if key_eqb (r, kind, label) k
+                then [firstn (S i) (m_it st) ++ firstn i (m_pt st) ++ [c] ++ [pos]] else []
+    end
+  | EUseSM r c pos kind label s =>
+    match aidx st r with
+    | None => []
+    | Some i => if key_eqb (r, kind, label) k
+                then [firstn (S i) (lookup_saved s (m_saved st)) ++ firstn i (m_pt st) ++ [c] ++ [pos]]
+                else []
     end
   | EUse r c pos kind label =>
     match index_of r (m_lo st) with
@@ -75,20 +93,36 @@ Proof.
     rewrite EP; reflexivity.
 Qed.
 
-Lemma content_add_use : forall m n st r c pos kind label stamp k i,
-  good m st -> index_of r (m_lo st) = Some i ->
-  content (add_use n st r c pos kind label stamp) k
-  = option_map (fun rows => rows ++ (if key_eqb (r, kind, label) k
-                                     then [use_row i stamp (m_pt st) c pos] else []))
-               (content st k).
+Lemma content_push : forall m st key d k n,
+  good m st -> (~ unknown st (key_rank key)) ->
+  option_map (fun kt : tkey * tstate => file_content (snd kt))
+    (find (fun kt => key_eqb k (fst kt)) (map_key (key_eqb key) (push_row n d) (m_tr st)))
+  = option_map (fun rows => rows ++ (if key_eqb key k then [d] else [])) (content st k).
 Proof.
-  intros m n st r c pos kind label stamp k i [Hm Hf] Ei. unfold add_use. rewrite Ei.
-  unfold content. cbn [m_tr]. rewrite find_map_key.
+  intros m st key d k n [Hm Hf] Hk. unfold content. rewrite find_map_key.
   destruct (find (fun kt => key_eqb k (fst kt)) (m_tr st)) as [[k' t]|] eqn:E; cbn [option_map]; auto.
-  apply find_some in E. destruct E as [Hin Hk]. cbn [fst] in Hk. apply key_eqb_eq in Hk. subst k'.
+  apply find_some in E. destruct E as [Hin Hk']. cbn [fst] in Hk'. apply key_eqb_eq in Hk'. subst k'.
   unfold finv in Hf. rewrite Forall_forall in Hf. destruct (Hf _ Hin) as [Ff _]. cbn [snd] in Ff.
-  cbn [fst snd]. destruct (key_eqb (r, kind, label) k); cbn [snd].
+  cbn [fst snd]. destruct (key_eqb key k); cbn [snd].
   - rewrite push_content, Ff. reflexivity.
+  - rewrite app_nil_r. reflexivity.
+Qed.
+
+Lemma content_start : forall m st r h k,
+  good m st -> unknown st r ->
+  option_map (fun kt : tkey * tstate => file_content (snd kt))
+    (find (fun kt => key_eqb k (fst kt)) (map_key (fun k => key_rank k =? r) (start_trace h) (m_tr st)))
+  = option_map (fun rows => rows ++ (if key_rank k =? r then [h] else [])) (content st k).
+Proof.
+  intros m st r h k [Hm Hf] Hu. unfold content. rewrite find_map_key.
+  destruct (find (fun kt => key_eqb k (fst kt)) (m_tr st)) as [[k' t]|] eqn:E; cbn [option_map]; auto.
+  apply find_some in E. destruct E as [Hin Hk']. cbn [fst] in Hk'. apply key_eqb_eq in Hk'. subst k'.
+  unfold finv in Hf. rewrite Forall_forall in Hf. destruct (Hf _ Hin) as [Ff _]. cbn [snd] in Ff.
+  unfold minv in Hm. rewrite Forall_forall in Hm. destruct (Hm _ Hin) as [Ti _].
+  cbn [fst snd]. destruct (key_rank k =? r) eqn:Er; cbn [snd].
+  - apply Z.eqb_eq in Er. assert (Et : empty_t t). { apply Ti. cbn [fst]. rewrite Er. exact Hu. }
+    destruct (start_content h _ Et) as [Ca _].
+    rewrite Ca, Ff. destruct Et as (Hp & Hw & _). unfold file_content. rewrite Hp, Hw. reflexivity.
   - rewrite app_nil_r. reflexivity.
 Qed.
 
@@ -100,29 +134,32 @@ Proof.
             content st' k = option_map (fun rows => rows ++ []) (content st k)).
   { intros st' E. unfold content. rewrite E.
     destruct (find (fun kt => key_eqb k (fst kt)) (m_tr st)); cbn; auto. rewrite app_nil_r. auto. }
-  destruct e; cbn [step emit].
-  - destruct (index_of r (m_lo st)) eqn:Ei; [apply Same; reflexivity|].
-    unfold content. cbn [m_tr]. rewrite find_map_key.
-    destruct (find (fun kt => key_eqb k (fst kt)) (m_tr st)) as [[k' t]|] eqn:E; cbn [option_map]; auto.
-    apply find_some in E. destruct E as [Hin Hk]. cbn [fst] in Hk. apply key_eqb_eq in Hk. subst k'.
-    destruct G as [Hm Hf].
-    unfold finv in Hf. rewrite Forall_forall in Hf. destruct (Hf _ Hin) as [Ff _]. cbn [snd] in Ff.
-    unfold minv in Hm. rewrite Forall_forall in Hm. destruct (Hm _ Hin) as [Ti _].
-    cbn [fst snd]. destruct (key_rank k =? r) eqn:Er; cbn [snd].
-    + apply Z.eqb_eq in Er. assert (Et : empty_t t). { apply Ti. cbn [fst]. rewrite Er. exact Ei. }
-      destruct (start_content (header (m_lo st ++ [r]) (length (m_lo st))) _ Et) as [Ca _].
-      rewrite Ca, Ff. destruct Et as (Hp & Hw & _). unfold file_content. rewrite Hp, Hw. reflexivity.
-    + rewrite app_nil_r. reflexivity.
-  - destruct (index_of r (m_lo st)) eqn:Ei.
-    + eapply content_add_use; eauto.
-    + unfold add_use. rewrite Ei. apply Same. reflexivity.
+  destruct e; cbn [step emit]; unfold add_use, add_use_m.
+  - destruct (index_of r (m_lo st)) eqn:E1; [apply Same; reflexivity|].
+    destruct (lookup_rm r (m_rm st)) eqn:E2; [apply Same; reflexivity|].
+    unfold content at 1. cbn [m_tr]. apply (content_start m); auto. split; auto.
+  - destruct (index_of r (m_lo st)) eqn:Ei; [|apply Same; reflexivity].
+    unfold content at 1. cbn [m_tr]. erewrite (content_push m); eauto.
+    intros [H _]. cbn in H. congruence.
   - destruct (index_of r (m_lo st)); apply Same; reflexivity.
   - destruct (index_of r (m_lo st)); apply Same; reflexivity.
   - apply Same; reflexivity.
   - destruct (index_of r (m_lo st)); apply Same; reflexivity.
-  - destruct (index_of r (m_lo st)) eqn:Ei.
-    + eapply content_add_use; eauto.
-    + unfold add_use. rewrite Ei. apply Same. reflexivity.
+  - destruct (index_of r (m_lo st)) eqn:Ei; [|apply Same; reflexivity].
+    unfold content at 1. cbn [m_tr]. erewrite (content_push m); eauto.
+    intros [H _]. cbn in H. congruence.
+  - destruct (index_of r (m_lo st)) eqn:E0; [|apply Same; reflexivity].
+    destruct (index_of src (m_lo st)) eqn:E1; [apply Same; reflexivity|].
+    destruct (lookup_rm src (m_rm st)) eqn:E2; [apply Same; reflexivity|].
+    unfold content at 1. cbn [m_tr]. apply (content_start m); auto. split; auto.
+  - destruct (aidx st r) eqn:Ei; [|apply Same; reflexivity].
+    unfold content at 1. cbn [m_tr with_tr]. erewrite (content_push m); eauto.
+    intros [_ H]. cbn in H. unfold aidx in Ei. rewrite H in Ei. discriminate.
+  - destruct (aidx st r) eqn:Ei; [|apply Same; reflexivity].
+    unfold content at 1. cbn [m_tr with_tr]. erewrite (content_push m); eauto.
+    intros [_ H]. cbn in H. unfold aidx in Ei. rewrite H in Ei. discriminate.
+  - destruct (aidx st r); apply Same; reflexivity.
+  - destruct (aidx st r); apply Same; reflexivity.
 Qed.
 
 Lemma content_exec : forall m n evs st k, good m st ->
@@ -215,12 +252,14 @@ Qed.
 (* ------------------------------------------------------------------ shapes *)
 Definition shape (i k : nat) (P pt : list Z) (st : mstate) : Prop :=
   m_lo st = iota k /\ (i <= k)%nat /\ length P = i /\ length pt = i
-  /\ m_it st = P ++ repeat 0 (k - i) /\ length (m_pt st) = k /\ firstn i (m_pt st) = pt.
+  /\ m_it st = P ++ repeat 0 (k - i) /\ length (m_pt st) = k /\ firstn i (m_pt st) = pt
+  /\ m_rm st = [].
 
 (* inside the loop of level i: own counter v *)
 Definition lshape (i k : nat) (P : list Z) (v : Z) (pt : list Z) (st : mstate) : Prop :=
   m_lo st = iota k /\ (i < k)%nat /\ length P = i /\ length pt = i
-  /\ m_it st = P ++ v :: repeat 0 (k - S i) /\ length (m_pt st) = k /\ firstn i (m_pt st) = pt.
+  /\ m_it st = P ++ v :: repeat 0 (k - S i) /\ length (m_pt st) = k /\ firstn i (m_pt st) = pt
+  /\ m_rm st = [].
 
 Definition slot (i : nat) (st : mstate) : list Z := lookup_saved (Z.of_nat i) (m_saved st).
 
@@ -230,12 +269,13 @@ Lemma step_reg : forall n i k P pt st, shape i k P pt st ->
   /\ forall kk, emit st (EReg (Z.of_nat i)) kk
        = if (Nat.eqb k i) && (key_rank kk =? Z.of_nat i) then [header (iota (S i)) i] else [].
 Proof.
-  intros n i k P pt st (Hlo & Hik & HP & Hpt & Hit & Hlp & Hfp). cbn [step emit]. rewrite Hlo.
+  intros n i k P pt st (Hlo & Hik & HP & Hpt & Hit & Hlp & Hfp & Hrm). cbn [step emit]. rewrite Hlo, Hrm.
+  cbn [lookup_rm].
   destruct (Nat.eqb k i) eqn:E.
   - apply Nat.eqb_eq in E. revert Hlo Hik Hit Hlp. rewrite E. clear E k. intros Hlo Hik Hit Hlp.
     rewrite index_of_iota_none by lia.
     replace (Nat.max i (S i)) with (S i) by lia. split; [|split]; auto.
-    + unfold lshape. cbn [m_lo m_it m_pt]. rewrite Hit, Nat.sub_diag, <- iota_S.
+    + unfold lshape. cbn [m_lo m_it m_pt m_rm]. rewrite Hit, Nat.sub_diag, <- iota_S.
       replace (S i - S i)%nat with O by lia. cbn [repeat]. rewrite app_nil_r.
       repeat split; auto; try lia.
       * rewrite app_length. cbn. lia.
@@ -253,10 +293,10 @@ Lemma step_use : forall n i k P v pt st c pos kind label, lshape i k P v pt st -
   /\ forall kk, emit st (EUse (Z.of_nat i) c pos kind label) kk
        = if key_eqb (Z.of_nat i, kind, label) kk then [P ++ [v] ++ pt ++ [c] ++ [pos]] else [].
 Proof.
-  intros n i k P v pt st c pos kind label (Hlo & Hik & HP & Hpt & Hit & Hlp & Hfp) st'.
+  intros n i k P v pt st c pos kind label (Hlo & Hik & HP & Hpt & Hit & Hlp & Hfp & Hrm) st'.
   subst st'. cbn [step emit]. unfold add_use. rewrite Hlo, index_of_iota by lia.
   cbn [m_lo m_it m_pt m_saved]. split; [|split; [|split]]; auto.
-  - unfold lshape. cbn [m_lo m_it m_pt]. repeat split; auto.
+  - unfold lshape. cbn [m_lo m_it m_pt m_rm]. repeat split; auto.
     + rewrite upd_length. auto.
     + rewrite firstn_upd. auto.
   - rewrite firstn_S_upd by lia. rewrite Hfp. reflexivity.
@@ -269,9 +309,9 @@ Lemma step_inc : forall n i k P v pt st, lshape i k P v pt st ->
   /\ m_saved (step n st (EInc (Z.of_nat i))) = m_saved st
   /\ m_pt (step n st (EInc (Z.of_nat i))) = m_pt st.
 Proof.
-  intros n i k P v pt st (Hlo & Hik & HP & Hpt & Hit & Hlp & Hfp). cbn [step].
+  intros n i k P v pt st (Hlo & Hik & HP & Hpt & Hit & Hlp & Hfp & Hrm). cbn [step].
   rewrite Hlo, index_of_iota by lia. cbn [m_saved m_pt]. split; [|split]; auto.
-  unfold lshape. cbn [m_lo m_it m_pt]. repeat split; auto.
+  unfold lshape. cbn [m_lo m_it m_pt m_rm]. repeat split; auto.
   rewrite Hit, <- HP, upd_app. reflexivity.
 Qed.
 
@@ -279,9 +319,9 @@ Lemma step_end : forall n i k P v pt st, lshape i k P v pt st ->
   shape i k P pt (step n st (EEnd (Z.of_nat i)))
   /\ m_saved (step n st (EEnd (Z.of_nat i))) = m_saved st.
 Proof.
-  intros n i k P v pt st (Hlo & Hik & HP & Hpt & Hit & Hlp & Hfp). cbn [step].
+  intros n i k P v pt st (Hlo & Hik & HP & Hpt & Hit & Hlp & Hfp & Hrm). cbn [step].
   rewrite Hlo, index_of_iota by lia. cbn [m_saved]. split; auto.
-  unfold shape. cbn [m_lo m_it m_pt]. repeat split; auto; try lia.
+  unfold shape. cbn [m_lo m_it m_pt m_rm]. repeat split; auto; try lia.
   rewrite Hit, <- HP, upd_app. replace (k - length P)%nat with (S (k - S (length P))) by lia.
   reflexivity.
 Qed.
@@ -290,7 +330,7 @@ Qed.
 Lemma lshape_down : forall i k P v pt c st, lshape i k P v pt st ->
   firstn (S i) (m_pt st) = pt ++ [c] -> shape (S i) k (P ++ [v]) (pt ++ [c]) st.
 Proof.
-  intros i k P v pt c st (Hlo & Hik & HP & Hpt & Hit & Hlp & Hfp) Hc.
+  intros i k P v pt c st (Hlo & Hik & HP & Hpt & Hit & Hlp & Hfp & Hrm) Hc.
   unfold shape. repeat split; auto; try lia.
   - rewrite app_length. cbn. lia.
   - rewrite app_length. cbn. lia.
@@ -301,7 +341,7 @@ Lemma lshape_up : forall i k P v pt c st, shape (S i) k (P ++ [v]) (pt ++ [c]) s
   length P = i -> length pt = i ->
   lshape i k P v pt st /\ firstn (S i) (m_pt st) = pt ++ [c].
 Proof.
-  intros i k P v pt c st (Hlo & Hik & HP & Hpt & Hit & Hlp & Hfp) LP Lpt.
+  intros i k P v pt c st (Hlo & Hik & HP & Hpt & Hit & Hlp & Hfp & Hrm) LP Lpt.
   split; auto. unfold lshape. repeat split; auto; try lia.
   - rewrite Hit, <- app_assoc. reflexivity.
   - assert (firstn i (firstn (S i) (m_pt st)) = firstn i (pt ++ [c])) by (rewrite Hfp; auto).
@@ -320,7 +360,7 @@ Lemma step_save : forall n i k P v pt st, lshape i k P v pt st ->
   /\ firstn (S i) (slot i st') = P ++ [v]
   /\ forall j, j <> i -> slot j st' = slot j st.
 Proof.
-  intros n i k P v pt st H st'. pose proof H as (Hlo & Hik & HP & Hpt & Hit & Hlp & Hfp).
+  intros n i k P v pt st H st'. pose proof H as (Hlo & Hik & HP & Hpt & Hit & Hlp & Hfp & Hrm).
   subst st'. cbn [step]. split; [|split; [|split]]; auto.
   - unfold slot. cbn [m_saved]. rewrite lookup_saved_cons, Z.eqb_refl, Hit, <- HP.
     apply firstn_S_app.
@@ -343,9 +383,9 @@ Lemma step_bump : forall n i k P v pt st s, lshape i k P v pt st ->
   /\ firstn (S i) (slot i st') = P ++ [s + 1]
   /\ forall j, j <> i -> slot j st' = slot j st.
 Proof.
-  intros n i k P v pt st s H Hs st'. pose proof H as (Hlo & Hik & HP & Hpt & Hit & Hlp & Hfp).
+  intros n i k P v pt st s H Hs st'. pose proof H as (Hlo & Hik & HP & Hpt & Hit & Hlp & Hfp & Hrm).
   subst st'. cbn [step]. rewrite Hlo, index_of_iota by lia.
-  split; [unfold lshape; cbn [m_lo m_it m_pt]; repeat split; auto|split; [reflexivity|split]].
+  split; [unfold lshape; cbn [m_lo m_it m_pt m_rm]; repeat split; auto|split; [reflexivity|split]].
   - unfold slot in *. cbn [m_saved]. rewrite lookup_saved_cons, Z.eqb_refl. subst i.
     apply (firstn_S_upd_gen P s (fun x => x + 1)). exact Hs.
   - intros j Hj. unfold slot. cbn [m_saved]. rewrite lookup_saved_cons.
@@ -356,9 +396,9 @@ Lemma step_bump_any : forall n i k P v pt st, lshape i k P v pt st ->
   let st' := step n st (EBump (Z.of_nat i) (Z.of_nat i)) in
   lshape i k P v pt st' /\ m_pt st' = m_pt st /\ forall j, j <> i -> slot j st' = slot j st.
 Proof.
-  intros n i k P v pt st H st'. pose proof H as (Hlo & Hik & HP & Hpt & Hit & Hlp & Hfp).
+  intros n i k P v pt st H st'. pose proof H as (Hlo & Hik & HP & Hpt & Hit & Hlp & Hfp & Hrm).
   subst st'. cbn [step]. rewrite Hlo, index_of_iota by lia.
-  split; [unfold lshape; cbn [m_lo m_it m_pt]; repeat split; auto|split; [reflexivity|]].
+  split; [unfold lshape; cbn [m_lo m_it m_pt m_rm]; repeat split; auto|split; [reflexivity|]].
   intros j Hj. unfold slot. cbn [m_saved]. rewrite lookup_saved_cons.
   destruct (Z.of_nat j =? Z.of_nat i) eqn:E; auto. apply Z.eqb_eq in E. lia.
 Qed.
@@ -371,10 +411,10 @@ Lemma step_useS : forall n i k P v pt st c pos kind label, lshape i k P v pt st 
        = if key_eqb (Z.of_nat i, kind, label) kk
          then [firstn (S i) (slot i st) ++ pt ++ [c] ++ [pos]] else [].
 Proof.
-  intros n i k P v pt st c pos kind label (Hlo & Hik & HP & Hpt & Hit & Hlp & Hfp) e st'.
+  intros n i k P v pt st c pos kind label (Hlo & Hik & HP & Hpt & Hit & Hlp & Hfp & Hrm) e st'.
   subst e st'. cbn [step emit]. unfold add_use. rewrite Hlo, index_of_iota by lia.
   cbn [m_lo m_it m_pt m_saved]. split; [|split; [|split]]; auto.
-  - unfold lshape. cbn [m_lo m_it m_pt]. repeat split; auto.
+  - unfold lshape. cbn [m_lo m_it m_pt m_rm]. repeat split; auto.
     + rewrite upd_length. auto.
     + rewrite firstn_upd. auto.
   - rewrite firstn_S_upd by lia. rewrite Hfp. reflexivity.
